@@ -297,14 +297,14 @@ func c07Native(w *Worker, t *c07Text, syms []string, model map[string]string, sr
 		}
 		fonts["f1"] = map[string]interface{}{"widths": w1}
 		req := NativeReq{Op: "format2", Src: src, Font: map[string]interface{}{"defaultFontId": "f1", "fonts": fonts}, MaxWidth: int(mw), Overlap: int(ov), NumLines: int(nl)}
-		resp, timedOut, err := w.N.Do(req, 10*time.Second)
+		resp, timedOut, err := w.N.DoPatient(req, 10*time.Second)
 		if err != nil || timedOut || resp.Panic != "" || resp.IsErr {
 			return resp.Panic + resp.Err, false
 		}
 		return resp.Out, true
 	}
 	req := NativeReq{Op: "format", Src: src, Font: map[string]interface{}{"defaultFontId": fontID, "fonts": fonts}, FontID: fontID, MaxWidth: int(mw), Overlap: int(ov), NumLines: int(nl)}
-	resp, timedOut, err := w.N.Do(req, 10*time.Second)
+	resp, timedOut, err := w.N.DoPatient(req, 10*time.Second)
 	if err != nil || timedOut || resp.Panic != "" {
 		return resp.Panic, false
 	}
@@ -880,12 +880,12 @@ func c07PlumbRun(w *Worker, pc *c07PlumbCase, rep *Report) {
 		nsrc := atoms.Substitute(src, values)
 		f.Sources = map[string]string{"source": nsrc}
 		w.N.Fresh()
-		resp, _, err := w.N.Do(NativeReq{Op: "compile", Src: nsrc, Optimize: true, FontPath: cfgPath, FontID: cliFont, MaxLen: get(cliMax.T)}, 10*time.Second)
+		resp, _, err := w.N.DoPatient(NativeReq{Op: "compile", Src: nsrc, Optimize: true, FontPath: cfgPath, FontID: cliFont, MaxLen: get(cliMax.T)}, 10*time.Second)
 		if err != nil {
 			rep.unconfirmed(f)
 			return
 		}
-		want, _, err2 := w.N.Do(NativeReq{Op: "format", Src: c07PlumbText, Font: cfg, FontID: font, MaxWidth: get(refMax), Overlap: get(refOv), NumLines: get(refLines)}, 10*time.Second)
+		want, _, err2 := w.N.DoPatient(NativeReq{Op: "format", Src: c07PlumbText, Font: cfg, FontID: font, MaxWidth: get(refMax), Overlap: get(refOv), NumLines: get(refLines)}, 10*time.Second)
 		if err2 != nil {
 			rep.unconfirmed(f)
 			return
